@@ -3,6 +3,7 @@ package sim
 import (
 	"fmt"
 	"os"
+	"sort"
 
 	hg "github.com/mosaicnetworks/babble/src/hashgraph"
 )
@@ -144,24 +145,35 @@ func (c *Cluster) buildSynthDag(r *RNG) {
 	// one with a fragile vote (see refmodel.go)
 	var searched []synthPlay
 	if !template && r.Bool(0.55) {
-		budget := []int{300, 1500, 4000}[r.Intn(3)]
-		for k := 0; k < budget; k++ {
-			cn := []int{4, 5, 5, 5, 6, 7}[r.Intn(6)]
-			var cand []synthPlay
-			if r.Bool(0.5) {
-				cand = gossipPlays(r, cn, 40+r.Intn(25*cn))
-			} else {
-				cand = synthPlays(r, cn, r.Range(6, 18))
-			}
-			d, _ := refFromPlays(cn, cand)
-			if f := d.computeFame(int(hg.COIN_ROUND_FREQ), nil); len(f.nears) > 0 {
-				n, searched = cn, cand
-				c.stats.probe("synthetic-near-miss-history")
-				c.stats.probeMax("synthetic-near-miss-validators", cn)
-				break
-			}
+		cn := []int{4, 5, 5, 5, 6, 7, 7}[r.Intn(7)]
+		var cand []synthPlay
+		if r.Bool(0.5) {
+			cand = gossipPlays(r, cn, 40+r.Intn(20*cn))
+		} else {
+			cand = synthPlays(r, cn, r.Range(6, 14))
 		}
-		if searched == nil {
+		sm := refSuperMajority(cn)
+		strong := func(f *refFame) bool {
+			for _, nr := range f.nears {
+				if nr.ss == sm && nr.t == sm-1 {
+					return true
+				}
+			}
+			return false
+		}
+		iters := []int{1500, 5000, 12000}[r.Intn(3)]
+		cand, f := climbPlays(r, cn, cand, iters, int(hg.COIN_ROUND_FREQ), strong)
+		if len(f.nears) > 0 {
+			// an ordinary continuation so that the rounds in question get decided,
+			// received and turned into blocks
+			cand = append(cand, synthPlays(r, cn, r.Range(4, 8))[cn:]...)
+			n, searched = cn, cand
+			c.stats.probe("synthetic-near-miss-history")
+			if strong(f) {
+				c.stats.probe("synthetic-near-miss-history-strong")
+			}
+			c.stats.probe(fmt.Sprintf("synthetic-near-miss-validators-%d", cn))
+		} else {
 			c.stats.probe("synthetic-near-miss-search-empty")
 		}
 	}
@@ -239,7 +251,9 @@ func (c *Cluster) findNears() {
 	}
 	f := d.computeFame(int(hg.COIN_ROUND_FREQ), nil)
 	c.refDag, c.refFame = d, f
-	for _, nr := range f.nears {
+	nears := append([]refNear{}, f.nears...)
+	sort.SliceStable(nears, func(i, j int) bool { return nears[i].strength() > nears[j].strength() })
+	for _, nr := range nears {
 		c.synthNears = append(c.synthNears, [2]string{d.hash[nr.y], d.hash[nr.z]})
 	}
 }
